@@ -347,17 +347,30 @@ Definition is_adopt (c : change) : bool :=
   match c_op c with PUpdate UAdopt => true | _ => false end.
 Definition has_adopt (pl : list change) : bool := existsb is_adopt pl.
 
+(* target_manifest.rs manifests_missing_for_desired: a used root (one that is the best root of some
+   desired file) needs its manifest (re)written when no manifest file exists, when the chosen one
+   (preferred name, else legacy) is unusable for the target, or when it does not list exactly the
+   root's desired files (relative path, content); an unused root's preferred manifest that still
+   lists entries is stale too — the last three cases since /repo commit "a stale or
+   unreadable target manifest is rewritten by the next deploy" *)
+Definition entries_subset (a b : list (str * N)) : bool :=
+  forallb (fun x => existsb (entry_eqb x) b) a.
+Definition entries_same (a b : list (str * N)) : bool := entries_subset a b && entries_subset b a.
+
 Fixpoint manifests_missing_from (i : nat) (rs roots : list root) (D : list dfile) (f : fs) : bool :=
   match rs with
   | [] => false
   | r :: rest =>
-    (existsb (fun d => idx_is (best_root_idx roots (dtarget d) (dpath d)) i) D
-     && negb (exists_at f (mf_path r))
-     && (negb (exists_at f (legacy_path r))
-         || match f (legacy_path r) with
-            | Some (FMan m) => match manifest_usable m (rtarget r) with Some _ => false | None => true end
-            | _ => true
-            end))
+    (if existsb (fun d => idx_is (best_root_idx roots (dtarget d) (dpath d)) i) D
+     then match read_manifest f r with
+          | Some es => negb (entries_same es (per_root roots D i r))
+          | None => true
+          end
+     else (* a root without desired files: a preferred-name manifest that still lists entries is stale *)
+          match f (mf_path r) with
+          | Some (FMan m) => match manifest_usable m (rtarget r) with Some (_ :: _) => true | _ => false end
+          | _ => false
+          end)
     || manifests_missing_from (S i) rest roots D f
   end.
 Definition manifests_missing (roots : list root) (D : list dfile) (f : fs) : bool :=
